@@ -152,7 +152,7 @@ package server
 //@ func (*Server).serve$3$1()
 //@   requires s != nil && conn != nil && c != nil && conn.conn != nil && conn.onErrorFunc != nil && ctx != nil && muState == 0
 //@   safety[C17]
-//@   modifies s.activeConnections, s.activeConnectionCount, tracks, untracks, closes, closeCbs, errorCbs, liveCount
+//@   modifies s.activeConnections, s.activeConnectionCount, tracks, untracks, closes, closeCbs, errorCbs, liveCount, atomicTrueLoads
 //@   ensures[C17.once] closes == old(closes) + 1 && untracks == old(untracks) + 1 && tracks == old(tracks)
 //@   ensures[C17.once] s.OnCloseConnFunc != nil ==> closeCbs == old(closeCbs) + 1
 //@   ensures[C17.once] s.OnCloseConnFunc == nil ==> closeCbs == old(closeCbs)
@@ -171,7 +171,7 @@ package server
 //@   requires s != nil && conn != nil && c != nil && ctx != nil && conn.conn != nil && conn.assembler != nil && conn.onErrorFunc != nil && asmCalls == connWrites && muState == 0
 //@   safety[C17]
 //@   structural[C17]
-//@   modifies conn.isBeingHandled, s.activeConnections, s.activeConnectionCount, connReads, connWrites, asmCalls, lastAsmOut, lastReadN, lastReadBuf, errorCbs, tracks, untracks, closes, closeCbs, faults, liveCount
+//@   modifies conn.isBeingHandled, s.activeConnections, s.activeConnectionCount, connReads, connWrites, asmCalls, lastAsmOut, lastReadN, lastReadBuf, errorCbs, tracks, untracks, closes, closeCbs, faults, liveCount, atomicTrueLoads
 //@   ensures[C17.once] closes == old(closes) + 1 && untracks == old(untracks) + 1 && tracks == old(tracks)
 //@   ensures[C17.once] s.OnCloseConnFunc != nil ==> closeCbs == old(closeCbs) + 1
 //@   ensures[C17.once] s.OnCloseConnFunc == nil ==> closeCbs == old(closeCbs)
@@ -181,13 +181,13 @@ package server
 //@   safety[C17]
 //@   lockdiscipline[C17]
 //@   guarded[C17] listener, activeConnections
-//@   modifies s.AssemblerCreatorFunc, s.listener, s.activeConnections, s.activeConnectionCount, accepted, lastAcceptErr, closes, tracks, untracks, acceptCbs, errorCbs, spawned, faults, liveCount
+//@   modifies s.AssemblerCreatorFunc, s.listener, s.activeConnections, s.activeConnectionCount, accepted, lastAcceptErr, closes, tracks, untracks, acceptCbs, errorCbs, spawned, faults, liveCount, atomicTrueLoads
 //@   ensures[C17] err != nil && muState == 0
 //@   ensures[C17.shutdown] lastAcceptErr != nil && atomicval(s.isShutdown) ==> err == ErrServerClosed
 //@   ensures[C17.accounting] accepted - old(accepted) == (closes - old(closes)) + (spawned - old(spawned))
 //@   ensures[C17.accounting] tracks - old(tracks) == spawned - old(spawned) && untracks == old(untracks)
 //@   loop 0
-//@     modifies s.activeConnections, s.activeConnectionCount, accepted, lastAcceptErr, closes, tracks, untracks, acceptCbs, errorCbs, spawned, faults, liveCount
+//@     modifies s.activeConnections, s.activeConnectionCount, accepted, lastAcceptErr, closes, tracks, untracks, acceptCbs, errorCbs, spawned, faults, liveCount, atomicTrueLoads
 //@     invariant muState == 0 && s.AssemblerCreatorFunc != nil && liveCount == atomicval(s.activeConnectionCount)
 //@     invariant[C17.accounting] accepted - old(accepted) == (closes - old(closes)) + (spawned - old(spawned))
 //@     invariant[C17.accounting] tracks - old(tracks) == spawned - old(spawned) && untracks == old(untracks)
